@@ -157,6 +157,28 @@ def corpus():
     return [json.loads(l) for l in open(path) if l.strip()] if os.path.exists(path) else []
 
 
+@guard
+def impl_helpers(case):
+    from harness import helperlib
+    return {"cases": helperlib.build_cases(case["seed"], case["which"], case["count"])}
+
+
+def run_helper_glue(R, which, count, jobs=4):
+    """the helper functions around the core (reachable_vertices, flow_across_network, capacity_across_cut / convert_bipartite_graph_to_flow_network,
+    positivity_graph) against their Lean mirrors: model coverage outside the property statement, reported as glue (never a verdict)"""
+    from harness.common import lean_query
+    js = [{"seed": R.rng.randrange(10 ** 6), "which": which, "count": count} for _ in range(jobs)]
+    rs = pmap(__name__.split(".")[-1], "impl_helpers", js, deadline=300.0)
+    allc = []
+    for r in rs:
+        if isinstance(r, dict) and "cases" in r:
+            allc += r["cases"]
+        else:
+            R.glue("helpers:" + which, False, {"worker": r})
+    for c, a in zip(allc, lean_query([c["line"] for c in allc])):
+        R.glue("helpers:" + c["tag"], c["real"] == a, {"line": c["line"][:300], "real": c["real"][:200], "model": a[:200]})
+
+
 def run(R):
     R.rule = ("random bipartite graphs up to 7+7 (quick) / 10+10 (thorough) vertices at densities .1/.3/.6/.9, directed-from-left and "
               "undirected encodings, isolated vertices on both sides, unequal sides, plain and arbitrary labels; thorough adds ALL graphs "
@@ -169,6 +191,7 @@ def run(R):
     if R.thorough:
         R.exhaustive = True
         run_batch(R, list(gen_exhaustive()), "exhaustive", 300.0)
+    run_helper_glue(R, "bip", 600 if R.thorough else 60)
 
 
 def replay(R, rep):
